@@ -194,6 +194,20 @@ class TargetOrLimit(GlobalStopCondition):
         return bool(good) or tree.metaepoch_count >= self.limit
 
 
+class LimitOrTarget(MetaepochLimit):
+    """The same user condition written as an extension of the shipped MetaepochLimit: the limit of the base class, or the
+    target reached."""
+
+    def __init__(self, target, limit, maximize):
+        super().__init__(limit)
+        self.target, self.maximize = target, maximize
+
+    def __call__(self, tree) -> bool:
+        best = tree.best_individual
+        good = best is not None and (best.fitness >= self.target if self.maximize else best.fitness <= self.target)
+        return bool(good) or super().__call__(tree)
+
+
 class DemeTargetOrLimit(LocalStopCondition):
     """A user-defined local condition: the deme is good enough (its current best reaches a target) or has run long enough.
     It reads the deme's accessors (current best, overall best, centroid, evaluation count) when it is consulted."""
@@ -331,7 +345,8 @@ def _gsc(spec, rec, script, problems):
         inner = ScriptedGSC(script["gsc"])
     elif k == "Target":
         t = float(spec.get("target", 0.02))
-        inner = TargetOrLimit(-t if rec.maximize else t, int(spec.get("n", 8)), rec.maximize)
+        cls = LimitOrTarget if spec.get("base") == "MetaepochLimit" else TargetOrLimit
+        inner = cls(-t if rec.maximize else t, int(spec.get("n", 8)), rec.maximize)
     else:
         raise ValueError(k)
     return RecGSC(rec, inner)
